@@ -764,10 +764,16 @@ pub fn all_specs(iters: u32, thorough: bool) -> Vec<Box<dyn AnySpec>> {
             spec!(v, "real_ils", format!("{} neighbors={} inner_iterations={}", k, nn, inner), real_problem(kind), iters, exact(1), move |c| ils::real_ils(ils::RealProblemParameters { ls_params: ls::RealProblemParameters { n_neighbors: nn, deviation: 0.2 }, ls_condition: LessThanN::iterations(inner) }, c));
         }
         spec!(v, "real_rs", format!("{}", k), real_problem(kind), iters, exact(1), move |c| rs::real_rs(c));
+        if kind == FKind::Sphere {
+            // iteration counts n with n * (1/n) != 1 in double arithmetic
+            for n in [49u32, 98] {
+                spec!(v, "real_rs", format!("{} iterations={}", k, n), real_problem(kind), n, exact(1), move |c| rs::real_rs(c));
+            }
+        }
         for dev in [0.3, 2.0] {
             spec!(v, "real_rw", format!("{} dev={}", k, dev), real_problem(kind), iters, exact(1), move |c| rw::real_rw(rw::RealProblemParameters { deviation: dev }, c));
         }
-        for (init, max, smin, smax, d0, d1, m) in [(2u32, 4u32, 1u32, 3u32, 0.1, 0.5, 2u32), (1, 1, 0, 1, 0.2, 0.4, 1), (3, 3, 2, 2, 0.01, 1.0, 3)] {
+        for (init, max, smin, smax, d0, d1, m) in [(2u32, 4u32, 1u32, 3u32, 0.5, 0.1, 2u32), (1, 1, 0, 1, 0.4, 0.2, 1), (3, 3, 2, 2, 1.0, 0.01, 3), (2, 3, 1, 2, 0.3, 0.3, 2)] {
             let rule: (Box<dyn Fn(usize, usize) -> bool + Send + Sync>, String) = (Box::new(move |_, n| n >= 1 && n <= max as usize), format!("1..={}", max));
             spec!(v, "real_iwo", format!("{} init={} max={} seeds={}..{}", k, init, max, smin, smax), real_problem(kind), iters, rule, move |c| iwo::real_iwo(iwo::RealProblemParameters { initial_population_size: init, max_population_size: max, min_number_of_seeds: smin, max_number_of_seeds: smax, initial_deviation: d0, final_deviation: d1, modulation_index: m }, c));
         }
@@ -887,4 +893,49 @@ fn generic_specs(v: &mut Vec<Box<dyn AnySpec>>, iters: u32, thorough: bool) {
             perm(1, es::es::<TspP, Global>(es::Parameters { selection: selection::CloneSingle::new(3), mutation: m, constraints: utils::Noop::new(), archive: None, replacement: replacement::MuPlusLambda::new(1) }, c))
         });
     }
+}
+
+
+/// Every template once more on an instance well beyond the exhaustive bounds (dozens of individuals, ten
+/// and more dimensions / cities, `iters` in the tens or hundreds). These are single ramps along the size
+/// axis, not exhaustive: default generator streams of a few seeds, no deviations.
+pub fn large_specs(iters: u32) -> Vec<Box<dyn AnySpec>> {
+    let mut v: Vec<Box<dyn AnySpec>> = vec![];
+    let real = |dim: usize, kind: FKind| move || RealP::new(dim, -3.0, 5.0, kind, Instr::new());
+    let tsp = |n: usize| move || TspP::line(&(0..n - 1).map(|i| 1.0 + ((i * 7) % 5) as f64 * 0.75).collect::<Vec<_>>(), Instr::new());
+    spec!(v, "real_ga", "large pop=33 dim=10", real(10, FKind::Shifted), iters, exact(33), move |c| ga::real_ga(ga::RealProblemParameters { population_size: 33, tournament_size: 3, pm: 0.37, deviation: 0.21, pc: 0.83 }, c));
+    spec!(v, "binary_ga", "large pop=26 dim=40", || BinP { dim: 40, instr: Instr::new() }, iters, exact(26), move |c| ga::binary_ga(ga::BinaryProblemParameters { population_size: 26, tournament_size: 4, rm: 0.07, pc: 0.61, pm: 0.9 }, c));
+    spec!(v, "real_mu_plus_lambda_es", "large mu=9 lambda=31 dim=12", real(12, FKind::Sphere), iters, exact(9), move |c| es::real_mu_plus_lambda_es::<RealP, ()>(es::RealProblemParameters { population_size: 9, lambda: 31, deviation: 0.13 }, c));
+    spec!(v, "real_de", "large pop=21 y=2 dim=9", real(9, FKind::Shifted), iters, exact(21), move |c| de::real_de(de::RealProblemParameters { population_size: 21, y: 2, f: 0.73, pc: 0.37 }, c));
+    spec!(v, "real_de", "large pop=12 y=1 dim=70", real(70, FKind::Sphere), iters.min(40), exact(12), move |c| de::real_de(de::RealProblemParameters { population_size: 12, y: 1, f: 0.61, pc: 0.9 }, c));
+    spec!(v, "real_pso", "large n=70 dim=11", real(11, FKind::Sphere), iters, exact(70), move |c| pso::real_pso(pso::RealProblemParameters { num_particles: 70, start_weight: 0.93, end_weight: 0.41, c_one: 1.7, c_two: 1.3, v_max: 2.3 }, c));
+    spec!(v, "real_sa", "large dim=16", real(16, FKind::Shifted), iters, exact(1), move |c| sa::real_sa(sa::RealProblemParameters { t_0: 3.7, alpha: 0.97, deviation: 0.31 }, c));
+    spec!(v, "real_ls", "large neighbors=17 dim=9", real(9, FKind::Sphere), iters, exact(1), move |c| ls::real_ls(ls::RealProblemParameters { n_neighbors: 17, deviation: 0.23 }, c));
+    spec!(v, "real_ils", "large neighbors=5 inner=7 dim=9", real(9, FKind::Shifted), iters, exact(1), move |c| ils::real_ils(ils::RealProblemParameters { ls_params: ls::RealProblemParameters { n_neighbors: 5, deviation: 0.19 }, ls_condition: LessThanN::iterations(7) }, c));
+    spec!(v, "real_rs", "large dim=20", real(20, FKind::Linear), iters, exact(1), move |c| rs::real_rs(c));
+    spec!(v, "real_rw", "large dim=20", real(20, FKind::Shifted), iters, exact(1), move |c| rw::real_rw(rw::RealProblemParameters { deviation: 0.11 }, c));
+    {
+        let rule: (Box<dyn Fn(usize, usize) -> bool + Send + Sync>, String) = (Box::new(|_, n| n >= 1 && n <= 40), "1..=40".to_string());
+        spec!(v, "real_iwo", "large init=7 max=40 seeds=1..5 dim=8", real(8, FKind::Sphere), iters, rule, move |c| iwo::real_iwo(iwo::RealProblemParameters { initial_population_size: 7, max_population_size: 40, min_number_of_seeds: 1, max_number_of_seeds: 5, initial_deviation: 0.6, final_deviation: 0.003, modulation_index: 3 }, c));
+    }
+    spec!(v, "real_fa", "large pop=14 dim=7", real(7, FKind::Sphere), iters, exact(14), move |c| fa::real_fa(fa::RealProblemParameters { pop_size: 14, alpha: 0.27, beta: 0.9, gamma: 0.013, delta: 0.97 }, c));
+    spec!(v, "real_bh", "large n=19 dim=10", real(10, FKind::Sphere), iters, exact(19), move |c| bh::real_bh(bh::RealProblemParameters { num_particles: 19 }, c));
+    {
+        let rule: (Box<dyn Fn(usize, usize) -> bool + Send + Sync>, String) = (Box::new(|_, n| n >= 1), ">= 1".to_string());
+        spec!(v, "real_cro", "large pop=13 dim=6", real(6, FKind::Shifted), iters, rule, move |c| cro::real_cro(cro::RealProblemParameters { initial_population_size: 13, mole_coll: 0.37, kinetic_energy_lr: 0.23, alpha: 7, beta: 1.3, initial_kinetic_energy: 9.0, buffer: 3.0, on_wall_deviation: 0.17, decomposition_deviation: 0.41 }, c));
+    }
+    spec!(v, "permutation_sa", "large 13 cities", tsp(13), iters, exact(1), move |c| sa::permutation_sa(sa::PermutationProblemParameters { t_0: 5.0, alpha: 0.96, num_swap: 5 }, c));
+    spec!(v, "permutation_ls", "large 13 cities neighbors=11", tsp(13), iters, exact(1), move |c| ls::permutation_ls(ls::PermutationProblemParameters { num_neighbors: 11, num_swap: 4 }, c));
+    spec!(v, "permutation_ils", "large 11 cities", tsp(11), iters, exact(1), move |c| ils::permutation_ils(ils::PermutationProblemParameters { ls_params: ls::PermutationProblemParameters { num_neighbors: 6, num_swap: 3 }, ls_condition: LessThanN::iterations(5) }, c));
+    spec!(v, "permutation_rs", "large 17 cities", tsp(17), iters, exact(1), move |c| rs::permutation_rs(c));
+    spec!(v, "permutation_random_walk", "large 17 cities swap=7", tsp(17), iters, exact(1), move |c| rw::permutation_random_walk(rw::PermutationProblemParameters { num_swap: 7 }, c));
+    for (ants, mmas) in [(9usize, false), (7, true)] {
+        let rule: (Box<dyn Fn(usize, usize) -> bool + Send + Sync>, String) = (Box::new(move |t, n| if t == 0 { n == 0 } else { n == ants + 1 }), format!("0 before the first pass, then {}", ants + 1));
+        if mmas {
+            spec!(v, "max_min_ant_system", "large 12 cities ants=7", tsp(12), iters, rule, move |c| aco::max_min_ant_system(aco::MMASParameters::verif_new(7, 1.3, 2.1, 0.7, 0.13, 3.0, 0.05), c));
+        } else {
+            spec!(v, "ant_system", "large 12 cities ants=9", tsp(12), iters, rule, move |c| aco::ant_system(aco::ASParameters::verif_new(9, 1.1, 1.9, 1.0, 0.07, 1.0), c));
+        }
+    }
+    v
 }
